@@ -165,8 +165,10 @@ def add_edges(spec, rnd, uniform):
                 pairs += got
         if not uniform and rnd.random() < 0.5 and len(pairs) > 1:
             pairs = rnd.sample(pairs, rnd.randint(1, len(pairs)))
+        # weights of one bundle: mixed magnitudes, or all of one (very small) magnitude as in SI-unit models
+        wkind = rnd.choice([None, None, None, None, None, 'nano', 'tiny']) if len(T) < 10 else rnd.choice([None, None, 'nano', 'tiny'])
         for a, b in pairs:
-            edges.append([f'{a}/{so}/{sv}', f'{b}/{to}/{tv}', None, {'weight': gen.gen_weight(rnd, vals)}])
+            edges.append([f'{a}/{so}/{sv}', f'{b}/{to}/{tv}', None, {'weight': gen.gen_weight(rnd, vals, wkind)}])
     spec['circ']['edges'] = spec['circ'].get('edges', []) + edges
     return spec
 
